@@ -143,6 +143,12 @@ func (fv *FuncVerifier) takeEdge(st *State, from, to *ssa.BasicBlock) bool {
 		st.pc = basePC
 	}
 	// havoc
+	entryCells := map[ssa.Value]Value{}
+	for c := range li.cells {
+		if v, ok := st.cells[c]; ok && v.Place == nil && v.Clo == nil {
+			entryCells[c] = v
+		}
+	}
 	fv.havocLoop(st, li)
 	st.inLoop[to] = true
 	env = fv.invEnv(st, li)
@@ -159,6 +165,25 @@ func (fv *FuncVerifier) takeEdge(st *State, from, to *ssa.BasicBlock) bool {
 		// vacuity canary: invariant (and path) satisfiable at loop head
 		ob := fv.addOb(st, "cover", fmt.Sprintf("cover:L%d", li.ord), TrueT, "loop invariant satisfiable", token.NoPos)
 		ob.Cover = true
+		// ... and not only in the state in which the loop was entered: some variable the loop
+		// assigns may differ from its entry value (otherwise the invariants pin the loop to its
+		// first iteration and every inv-keep is checked for that iteration alone)
+		var moved []Term
+		for c, ov := range entryCells {
+			nv, ok := st.cells[c]
+			if !ok || nv.Place != nil || len(nv.L) != len(ov.L) {
+				continue
+			}
+			for i := range nv.L {
+				if nv.L[i].Sort == ov.L[i].Sort && nv.L[i].S != ov.L[i].S {
+					moved = append(moved, Not(Eq(nv.L[i], ov.L[i])))
+				}
+			}
+		}
+		if len(moved) > 0 {
+			pob := fv.addOb(st, "cover", fmt.Sprintf("cover:L%d:progress", li.ord), Or(moved...), "under its invariants the loop head admits a state other than the entry state", token.NoPos)
+			pob.Cover = true
+		}
 	}
 	return true
 }
